@@ -66,7 +66,8 @@ def run_variant(prop, v, repo="/repo"):
         out = r.stdout
         if "could not be analysed" in out:
             return {"name": v["name"], "kind": v["kind"], "status": "does-not-compile", "reason": out[-400:]}
-        evp = os.path.join(VERIF, ".cache", "scratch-evidence", prop + ".json")
+        evd = os.path.join(VERIF, ".cache", "scratch-evidence", os.path.basename(d))
+        evp = os.path.join(evd, prop + ".json")
         fired = []
         try:
             ev = json.load(open(evp))
@@ -85,15 +86,16 @@ def run_variant(prop, v, repo="/repo"):
         return res
     finally:
         shutil.rmtree(d, ignore_errors=True)
+        shutil.rmtree(os.path.join(VERIF, ".cache", "scratch-evidence", os.path.basename(d)), ignore_errors=True)
 
 
-def run(prop, mod, only=None):
-    out = []
-    for v in getattr(mod, "SELFTEST", []):
-        if only and v["name"] not in only:
-            continue
-        out.append(run_variant(prop, v))
-    return out
+def run(prop, mod, only=None, workers=4):
+    from concurrent.futures import ThreadPoolExecutor
+    todo = [v for v in getattr(mod, "SELFTEST", []) if not only or v["name"] in only]
+    if not todo:
+        return []
+    with ThreadPoolExecutor(max_workers=workers) as ex:
+        return list(ex.map(lambda v: run_variant(prop, v), todo))
 
 
 if __name__ == "__main__":
